@@ -73,7 +73,7 @@ def client_cmd(repo, ds, shipped=None):
             "--targets", os.path.join(repo, "targets"), "--datastore", ds]
 
 
-def mkrepo(out, world, versions, consistent=False, rotate_at=None, sign_as=None):
+def mkrepo(out, world, versions, consistent=False, rotate_at=None, sign_as=None, keep=False):
     cmd = [SIM, "mkrepo", "--out", out, "--world", str(world), "--versions", ",".join(map(str, versions)), "--target", "a.bin:64"]
     if consistent:
         cmd.append("--consistent")
@@ -81,6 +81,8 @@ def mkrepo(out, world, versions, consistent=False, rotate_at=None, sign_as=None)
         cmd += ["--rotate-at", str(rotate_at)]
     if sign_as:
         cmd += ["--sign-as-root", str(sign_as)]
+    if keep:
+        cmd.append("--rotate-keep")
     r = sh(cmd)
     if r.returncode != 0:
         raise RuntimeError("mkrepo failed: %s %s" % (cmd, r.stderr.decode()))
@@ -142,17 +144,26 @@ def c15_template(args):
         if newer == "all":
             v2[2] += 1
         dv = [3] if delegated else []
-        tmpl = {"world": world, "consistent": consistent, "delegated": delegated, "rotate": rotate, "v": v, "v2": v2}
+        # every fourth template: the newer root replaces one of two timestamp / snapshot keys and
+        # keeps the other, and the repository restarts its timestamp and snapshot versions at 1
+        # (legitimate after a rotation: the client discards what it stored under the old keys);
+        # stored files still verify under the new root, so a half-done hand-over must not leave
+        # them in charge
+        restart = ti % 4 == 3
+        if restart:
+            rotate = True
+            v2 = [1, 1, v2[2]]
+        tmpl = {"world": world, "consistent": consistent, "delegated": delegated, "rotate": rotate, "restart": restart, "v": v, "v2": v2}
         res["sample"] = tmpl
         R1, R2 = os.path.join(W, "r1"), os.path.join(W, "r2")
-        mkrepo(R1, world, [1] + v + dv, consistent)
-        mkrepo(R2, world, [2 if rotate else 1] + v2 + dv, consistent, rotate_at=2 if rotate else None)
+        mkrepo(R1, world, [1] + v + dv, consistent, keep=restart)
+        mkrepo(R2, world, [2 if rotate else 1] + v2 + dv, consistent, rotate_at=2 if rotate else None, keep=restart)
         # replayed older states: exactly one of (timestamp, snapshot, targets) is older than cycle 1's
         older = {}
         for name, vv in (("older-timestamp", [v[0] - 1, v[1], v[2]]), ("older-snapshot", [v[0], v[1] - 1, v[2]]), ("older-targets", [v[0], v[1], v[2] - 1])):
             d = os.path.join(W, name)
             # the adversary replays old metadata but cannot make the published root chain shrink
-            mkrepo(d, world, [2 if rotate else 1] + vv + dv, consistent, rotate_at=2 if rotate else None, sign_as=1)
+            mkrepo(d, world, [2 if rotate else 1] + vv + dv, consistent, rotate_at=2 if rotate else None, sign_as=1, keep=restart)
             older[name] = d
         shipped = os.path.join(R1, "root.json")
         DS0 = os.path.join(W, "ds0")
@@ -172,7 +183,9 @@ def c15_template(args):
             if key in follow_cache:
                 return follow_cache[key]
             out = []
-            for name, d in sorted(older.items()):
+            # with a retained key and restarted versions an old-key replay next to the newer root is
+            # legitimately acceptable once the hand-over happened: only clause (b) is judged then
+            for name, d in ([] if restart else sorted(older.items())):
                 t = os.path.join(W, "fu")
                 shutil.rmtree(t, ignore_errors=True)
                 shutil.copytree(ds, t)
@@ -349,7 +362,7 @@ def run_c15(tier, replay=None):
     with multiprocessing.Pool(THREADS) as pool:
         results = pool.map(c15_template, [(i, SEED, tier) for i in range(n)])
     return report("C15", tier, results, known, t0,
-                  rule="per template (seeded: versions, which roles are newer, consistent snapshots, delegated role, root rotation) a successful cycle 1, then cycle 2 against a newer repository with EVERY datastore-related system call position enumerated from a dry run of the binary under test: SIGKILL on entry to each open-for-write / write / rename / unlink and just after each of them, and EIO / ENOSPC / EACCES as their result; each resulting datastore is then offered three replayed older repositories (must be refused) and the current one (must load); non-trivial = the fault fired and left a datastore different from the pre-cycle state; distinct = distinct (syscall, fault kind, file, resulting state)",
+                  rule="per template (seeded: versions, which roles are newer, consistent snapshots, delegated role, root rotation; every fourth template rotates with one of two online keys retained and restarts the timestamp and snapshot versions at 1) a successful cycle 1, then cycle 2 against a newer repository with EVERY datastore-related system call position enumerated from a dry run of the binary under test: SIGKILL on entry to each open-for-write / write / rename / unlink and just after each of them, and EIO / ENOSPC / EACCES as their result; each resulting datastore is then offered three replayed older repositories (must be refused) and the current one (must load); non-trivial = the fault fired and left a datastore different from the pre-cycle state; distinct = distinct (syscall, fault kind, file, resulting state)",
                   level="fault_enumeration",
                   assumptions=["process death, not power loss: what a completed system call wrote is durable (missing fsync is invisible)",
                                "the client's datastore I/O is issued by one thread in a fixed order (checked by two dry runs per template)",
